@@ -17,7 +17,7 @@ def zone_pred(tree, cfg, eager_applies=False):
     attr = jtree.get(tree, 'attr')
     def has_insert(cmdkey):
         cmd = jtree.get(attr, cmdkey) if attr is not None else None
-        return cmd is not None and jtree.get(cmd, 'insert') is not None
+        return cmd is not None and jtree.has(cmd, 'insert')     # the key's presence makes it an insert command, whatever its value
     def pred(kp):
         if len(kp) >= 2 and kp[0] == 'attr':
             if cfg.ips and kp == ('attr', 'remote'): return True
